@@ -55,6 +55,7 @@ type (
 // ---------- contract model ----------
 
 type LoopSpec struct {
+	Asserts    []Clause
 	Invariants []Clause
 	Unroll     int // >0: unroll at most this many iterations, with an unwinding assertion
 	Modifies   []SExpr
@@ -81,6 +82,7 @@ type Contract struct {
 	Modifies []SExpr
 	Lets     []LetDef
 	Loops    map[int]*LoopSpec
+	Asserts  map[int][]Clause // by static call ordinal: proved, then assumed, after the statement containing the call
 	Pure     bool
 	Trusted  bool // contract assumed, body not verified (listed in evidence)
 	Inline   bool
@@ -89,6 +91,8 @@ type Contract struct {
 	File     string
 	Line     int
 	Opts     map[string]string
+	Reveal   []string // opaque spec functions whose definitions this function's proof may use
+	RevealAsserts []string
 }
 
 type GhostDecl struct {
@@ -111,6 +115,8 @@ type Lemma struct {
 	Props []string
 	E     SExpr
 	Text  string
+	Reveal []string
+	Uses   []string // other lemmas (proved separately) assumed as hypotheses
 	Axiom bool // trusted, not proved
 	Pkg   string
 	File  string
@@ -137,7 +143,7 @@ type ContractFile struct {
 var clauseKeywords = map[string]bool{
 	"func": true, "requires": true, "ensures": true, "modifies": true, "loop": true,
 	"let": true, "pure": true, "spec": true, "lemma": true, "axiom": true, "type": true,
-	"trusted": true, "inline": true, "ghost": true, "props": true, "noframe": true, "opt": true,
+	"reveal": true, "reveal-asserts": true, "at": true, "trusted": true, "inline": true, "ghost": true, "props": true, "noframe": true, "opt": true,
 }
 
 // ParseContractFile reads the //@ lines of a file.
@@ -232,6 +238,12 @@ func ParseContractFile(path, pkgPath string) (*ContractFile, error) {
 				return nil, fail(err)
 			}
 			cur.Lets = append(cur.Lets, LetDef{strings.TrimSpace(rest[:i]), e})
+		case "reveal":
+			cur.Reveal = append(cur.Reveal, strings.Fields(strings.ReplaceAll(rest, ",", " "))...)
+		case "reveal-asserts":
+			// definitions visible only to `assert` obligations (staging lemmas), hidden from
+			// invariant-preservation and postcondition obligations
+			cur.RevealAsserts = append(cur.RevealAsserts, strings.Fields(strings.ReplaceAll(rest, ",", " "))...)
 		case "pure":
 			cur.Pure = true
 		case "trusted":
@@ -257,6 +269,26 @@ func ParseContractFile(path, pkgPath string) (*ContractFile, error) {
 				g.Init = e
 			}
 			cur.Ghosts = append(cur.Ghosts, g)
+		case "at":
+			// at call N assert <expr>
+			if cur == nil {
+				return nil, fail(fmt.Errorf("at outside func"))
+			}
+			w1, r1 := splitWord(rest)
+			ns, r2 := splitWord(r1)
+			w3, r3 := splitWord(r2)
+			n, err := strconv.Atoi(ns)
+			if w1 != "call" || w3 != "assert" || err != nil {
+				return nil, fail(fmt.Errorf("expected: at call N assert <expr>"))
+			}
+			e, err := ParseSpecExpr(r3)
+			if err != nil {
+				return nil, fail(err)
+			}
+			if cur.Asserts == nil {
+				cur.Asserts = map[int][]Clause{}
+			}
+			cur.Asserts[n] = append(cur.Asserts[n], Clause{Text: r3, E: e, Line: rc.line, File: path})
 		case "loop":
 			if cur == nil {
 				return nil, fail(fmt.Errorf("loop outside func"))
@@ -279,6 +311,14 @@ func ParseContractFile(path, pkgPath string) (*ContractFile, error) {
 					return nil, fail(err)
 				}
 				ls.Invariants = append(ls.Invariants, Clause{Text: r3, E: e, Line: rc.line, File: path})
+			case "assert":
+				// proved at the end of the loop body (before the post statement), then assumed;
+				// pre(e) refers to the value of e at the head of the current iteration
+				e, err := ParseSpecExpr(r3)
+				if err != nil {
+					return nil, fail(err)
+				}
+				ls.Asserts = append(ls.Asserts, Clause{Text: r3, E: e, Line: rc.line, File: path})
 			case "unroll":
 				ls.Unroll = 64
 				if strings.TrimSpace(r3) != "" {
@@ -316,8 +356,18 @@ func ParseContractFile(path, pkgPath string) (*ContractFile, error) {
 				return nil, fail(fmt.Errorf("lemma without name"))
 			}
 			lm := &Lemma{Name: head[0], Axiom: kw == "axiom", Pkg: pkgPath, File: path, Line: rc.line, Text: strings.TrimSpace(rest[i+1:])}
-			if len(head) > 1 && head[1] == "props" {
-				lm.Props = head[2:]
+			mode := ""
+			for _, h := range head[1:] {
+				switch {
+				case h == "props" || h == "reveal" || h == "uses":
+					mode = h
+				case mode == "uses":
+					lm.Uses = append(lm.Uses, h)
+				case mode == "props":
+					lm.Props = append(lm.Props, h)
+				case mode == "reveal":
+					lm.Reveal = append(lm.Reveal, h)
+				}
 			}
 			e, err := ParseSpecExpr(rest[i+1:])
 			if err != nil {
